@@ -18,7 +18,7 @@ import sys
 import warnings
 
 from vlib import gen, oracle
-from vlib.core import Z, coq, main, standard_proof_steps
+from vlib.core import Z, coq, main, standard_proof_steps, tree_lit
 
 PROP = "C20"
 HUGE = 10 ** 18
@@ -166,11 +166,15 @@ def run(ctx):
                         # the trees the model's run builds are the nodes the real traversal lists, and the
                         # cap satisfies the hypothesis of C20_uncapped_exact_steps
                         bigprod = oracle.prod(size_dict[ix] for ix in {ix for t in inputs for ix in t})
+                        ordl = "[" + "; ".join("(%s, %s)" % (coq(len(p) == N), tree_lit(gen.tree_nested(tree, p)))
+                                               for p, _, _ in trav) + "]"
                         tree_cases.append(("%s/%s/late=%s" % (label, oname, late),
                                            "(map sorted_leaves (run_trees {c} {l} (ccs_init {n}) (leaf_forest {n}) {o}), "
-                                           "Z.leb (size_of (szd {n}) (universe {n})) {c})".format(
-                                               c=coq(Z(chi)), l=coq(late), n=netl, o=order_lit(trav)),
-                                           coq(([sorted(p) for p, _, _ in trav], bigprod <= HUGE))))
+                                           "(Z.leb (size_of (szd {n}) (universe {n})) {c}, "
+                                           "(valid_order_b {t} {ordl}, eqb (plr_of_list (map snd {ordl})) {o})))".format(
+                                               c=coq(Z(chi)), l=coq(late), n=netl, o=order_lit(trav), t=tree_lit(nested),
+                                               ordl=ordl),
+                                           coq(([sorted(p) for p, _, _ in trav], bigprod <= HUGE, True, True))))
                     ids_cases.append(("%s/%s/chi=%s/late=%s" % (label, oname, chi, late),
                                       "ids_ok {c} {l} {n} {o}".format(c=coq(Z(chi)), l=coq(late), n=netl,
                                                                      o=order_lit(trav)), "true"))
@@ -262,9 +266,9 @@ def run(ctx):
         rec.update(model_value=val, case=label)
         ctx.fail("ids_ok (hypothesis of C20_total_size_is_sum_of_node_sizes / C20_capped_le_uncapped_peak) is false "
                  "for a traversal the real tree produced", rec, found_input=False)
-    for idx, label, val in ctx.coq_cases("c20_run_trees", ["Compressed", "NetFacts", "CompressedExactFacts"], tree_cases, chunk=40, timeout=900):
-        ctx.fail("run_trees (the trees of C20_uncapped_exact_steps) are not the nodes the real traversal lists, or the "
-                 "cap hypothesis fails", {"case": label, "model_value": val}, found_input=False)
+    for idx, label, val in ctx.coq_cases("c20_run_trees", ["Compressed", "NetFacts", "CompressedExactFacts", "ExecOrderFacts", "CompressedTreeFacts"], tree_cases, chunk=40, timeout=900):
+        ctx.fail("hypotheses of C20_uncapped_exact_steps / C20_uncapped_eq_exact_same_tree fail on a real traversal "
+                 "(run_trees leaf sets, cap bound, valid_order_b of the real order, plr_of_list of it)", {"case": label, "model_value": val}, found_input=False)
     # how many of the compared traces were (partly) outside the model because of an unknown set order
     try:
         flags = ctx.coq_eval(["Compressed"], ["[%s]" % "; ".join(sens_terms[i:i + 60])
